@@ -58,14 +58,17 @@ add("C09", "TestC09",
 add("C16", "TestC16", level="fault_enumeration",
     rule=("Cases: gen.Shape input (all 7 formats) with 0-5 records and a chunk schedule; for each input EVERY fault position p in "
           "0..len(input) is enumerated (the reader delivers p bytes, then a non-EOF error: persistently, or once, then `resume` more bytes, "
-          "then forever). Oracle: a terminal result within N+3 Reads (N = length of the fault-free transcript), repeated unchanged by two "
+          "then forever). The error value is the harness' own or one real readers produce (io.ErrUnexpectedEOF, io.ErrClosedPipe, "
+          "io.ErrNoProgress, os.ErrDeadlineExceeded, context.Canceled, a net.Error-like timeout, a wrapped ErrUnexpectedEOF, *os.PathError) and "
+          "the failing reader is handed over as is or inside *bufio.Reader (default / 16-byte buffer), io.MultiReader or io.LimitReader. "
+          "Oracle: a terminal result within N+3 Reads (N = length of the fault-free transcript), repeated unchanged by two "
           "further Reads; all earlier results except possibly the last equal the fault-free results (kind, JSON, checksum). "
           "evaluations counts inputs; counters.fault_positions counts transform runs. Non-trivial: input with >= 2 results and > 2 bytes "
           "(so faults fall strictly inside); distinct by SHA-256 of the serialised case. exhaustive per input, not globally."),
     quick={"checks": 400, "shards": 4, "timeout": 600},
     thorough={"checks": 6000, "shards": 16, "timeout": 3000},
     floors={"transient": 0.3, "format=csv": 0.05, "format=edi": 0.05, "format=xml": 0.05, "format=json": 0.05,
-            "format=fixed-length": 0.05, "format=fixedlength2": 0.05, "format=csv2": 0.05},
+            "format=fixed-length": 0.05, "format=fixedlength2": 0.05, "format=csv2": 0.05, "std-error-value": 0.2, "bufio-reader": 0.1},
     assumptions=["a run in which the transform never reads as far as the fault must equal the fault-free run; once the fault was reached, a clean "
                  "io.EOF is NOT accepted as terminal result (the failure would be swallowed and the rest of the input silently missing)"],
     coverage_extra={"exhaustive_per_input": True})
@@ -117,11 +120,17 @@ add("C17", "TestC17",
           "records) cycled k times, k from {50..400} mostly, 2000 (8%), 20000 (2%); optional insignificant separators between records "
           "(blank lines / whitespace). Oracle: size(i) = node count of the whole tree reachable via Parent links from the i-th delivered "
           "record; max size <= max over the first 8 deliveries + one record; the 2k-record input shows the same maximum as the k-record "
-          "input. Non-trivial: >= 50 delivered records with filtered-out candidates between deliveries; distinct by SHA-256 of the case."),
+          "input. Live-heap arm (10% of cases): the pool cycled 5k times (k 1000-2500), live heap (runtime.MemStats.HeapAlloc after two forced "
+          "collections) sampled after k Reads and after the terminal result with the Transform still alive: growth <= 1 MiB (a few hundred "
+          "bytes retained per record is >= 10x above, the unchanged code's growth, see counters.heap_arm_growth_bytes, >= 30x below). "
+          "Non-trivial: >= 50 delivered records with filtered-out candidates between deliveries (tree arms), >= 1000 delivered records "
+          "(heap arm); distinct by SHA-256 of the case."),
     quick={"checks": 150, "shards": 4, "timeout": 900},
     thorough={"checks": 1500, "shards": 16, "timeout": 3300},
-    floors={"filtered-candidates": 0.3, "sep=1": 0.3, "k>=2000": 0.03},
-    assumptions=["heap size is not used as a verdict; only the size of the reachable node tree"])
+    floors={"filtered-candidates": 0.3, "sep=1": 0.3, "k>=2000": 0.03, "arm=live-heap": 0.05},
+    assumptions=["tree arms: only the size of the reachable node tree is a verdict",
+                 "live-heap arm: one rapid goroutine per process, nothing else allocates between the two samples; the 1 MiB slack is far "
+                 "above allocator noise (tens of KB) and far below any per-record retention over >= 4000 records"])
 
 add("C18", "TestC18",
     rule=("Cases: gen.Shape input (7 formats) whose field values carry code points 0x80..0xFF (biased to 0x80-0x9F and the five bytes "
@@ -152,12 +161,13 @@ META["C15"] = {
     "level_note": "Trusted: nothing beyond the harness' renderers. Fresh-process comparison is sampled (one third of the cases).",
 }
 META["C17"] = {
-    "technique": "metamorphic property-based testing (k vs 2k records) + validity bound on the reachable tree size",
+    "technique": "metamorphic property-based testing (k vs 2k records) + validity bound on the reachable tree size + live-heap growth bound",
     "design_ref": "DESIGN.md §5 C17",
     "level_text": ("For generated record pools repeated k and 2k times the size of the node tree reachable from every delivered record "
                    "is measured; it must stay under a bound fixed by the first deliveries and must not depend on k. Boundedness is "
-                   "checked up to 40 000 records per run in sampled cases; a leak starting later is out of reach."),
-    "level_note": "Trusted: Parent/child links as the notion of 'retained' (C12 audits the links); heap statistics are not a verdict.",
+                   "checked up to 40 000 records per run in sampled cases; a leak starting later is out of reach. A second arm bounds the growth of "
+                   "the live heap between k and 5k records (retention outside the node tree, e.g. per-record cache entries)."),
+    "level_note": "Trusted: Parent/child links as the notion of 'retained' in the tree arms (C12 audits the links); runtime.MemStats after forced collections in the heap arm.",
 }
 META["C18"] = {
     "technique": "metamorphic property-based testing against hard-coded code pages",
